@@ -97,6 +97,12 @@ def rand_cfg(rng, n_max=5, demes_max=3, epochs_max=3, kinds=('kingman', 'beta', 
             for b in names:
                 if a != b:
                     eps[-1]['mig'][(a, b)] = 0.5
+    # a fifth of the structured configurations are island models (one rate for all pairs within an epoch): the shape that
+    # SymmetricMigrationRateChanges writes (chosen from the configuration itself, no extra random draws)
+    if D >= 2 and (n + ne + sum(len(e['mig']) for e in eps)) % 5 == 0:
+        for e in eps:
+            v = max(list(e['mig'].values()) + [0.0]) or 0.5
+            e['mig'] = {(a, b): v for a in names for b in names if a != b}
     cfg = dict(n={p: v for p, v in zip(names, vec)}, model=model, epochs=eps, loci=loci)
     if loci == 2:
         cfg['r'] = rng.choice([0.0, 0.125, 1.0, 8.0])
